@@ -12,8 +12,8 @@ from concurrent.futures import ThreadPoolExecutor
 from .. import common, tlc
 
 INVS = ["TypeOK", "NeverReportsData", "GridOrderNoDup", "CompleteSoFar", "ExactlyTheMissing",
-        "SecondScanEmpty", "NoNewLabels", "HarvestTouchesOnlyReported", "ParseExact"]
-ALLREQ = ("combos", "cases", "mixed", "partial", "foreigncombo", "foreigncase")
+        "SecondScanEmpty", "NoNewLabels", "HarvestTouchesOnlyReported", "ParseExact", "RequestedNowPresent"]
+ALLREQ = ("combos", "cases", "mixed", "partial", "foreigncombo", "foreigncase", "keyorder")
 BOTH = ("isnull", "isfinite")
 V3 = ("data", "nan", "inf")
 
@@ -23,10 +23,10 @@ SHAPES_QUICK = [
     ("d1v2t", [2], 2, [2], V3, BOTH, "cells", ("combos", "cases", "foreigncase"), True, 1500),
     ("d1v1t3", [3], 1, [1], ("data", "nan"), ("isnull",), "cells", ("cases",), True, None),
     ("d2v1", [2, 2], 1, [], V3, BOTH, "cells", ALLREQ, True, None),
-    ("d2v2t", [2, 2], 2, [2], ("data", "nan"), ("isnull",), "cells", ("mixed",), True, 2000),
+    ("d2v2t", [2, 2], 2, [2], ("data", "nan"), ("isnull",), "cells", ("mixed", "keyorder"), True, 2100),
     ("d2v3", [2, 2], 3, [], ("data", "inf"), ("isfinite",), "cells", (), True, 1200),
     ("d3v1", [2, 2, 2], 1, [], ("nan", "inf"), BOTH, "cells", ("mixed", "foreigncase"), True, 650),
-    ("d3v2t", [2, 2, 2], 2, [1], V3, BOTH, ("allnan", "s1data"), ("partial",), True, 400),
+    ("d3v2t", [2, 2, 2], 2, [1], V3, BOTH, ("allnan", "s1data"), ("partial", "keyordercombo"), True, 500),
     ("d4v2t", [2, 2, 1, 2], 2, [2], V3, ("isnull",), ("allnan", "lastdata"), ("combos", "foreigncombo"), True, 300),
 ]
 SHAPES_THOROUGH = [
@@ -37,23 +37,24 @@ SHAPES_THOROUGH = [
     ("d2v1", [2, 2], 1, [], V3, BOTH, "cells", ALLREQ, True, None),
     ("d2v1t", [2, 2], 1, [1], V3, BOTH, "cells", (), True, None),
     ("d2v2t", [2, 2], 2, [2], ("data", "nan"), ("isnull",), "cells", ALLREQ, True, None),
-    ("d2v2ti", [2, 2], 2, [1], ("data", "inf"), ("isfinite",), "cells", ("mixed", "foreigncase"), True, None),
+    ("d2v2ti", [2, 2], 2, [1], ("data", "inf"), ("isfinite",), "cells", ("mixed", "foreigncase", "keyorder"), True, None),
     ("d2v3", [2, 2], 3, [], ("data", "inf"), ("isfinite",), "cells", ("combos",), True, None),
     ("d2v3n", [2, 2], 3, [], ("nan", "inf"), BOTH, "cells", (), True, None),
     ("d2s33", [3, 3], 1, [], ("data", "nan"), ("isnull",), "cells", ("mixed",), True, None),
-    ("d2s32", [3, 2], 1, [], V3, BOTH, "cells", ("partial",), True, None),
+    ("d2s32", [3, 2], 1, [], V3, BOTH, "cells", ("partial", "keyorder"), True, None),
     ("d3v1", [2, 2, 2], 1, [], V3, ("isfinite",), "cells", ("mixed",), True, None),
-    ("d3v2t", [2, 2, 2], 2, [1], V3, ("isnull",), ("allnan", "s1data", "alldata"), ("partial",), True, None),
+    ("d3v2t", [2, 2, 2], 2, [1], V3, ("isnull",), ("allnan", "s1data", "alldata"), ("partial", "keyordercombo"), True, None),
     ("d3v3t", [2, 2, 2], 3, [2], V3, ("isfinite",), ("allinf", "s1nan", "naninf"), ("partial",), True, None),
     ("d4v2t", [2, 2, 1, 2], 2, [2], V3, ("isfinite",), ("allnan", "lastdata", "s1nan"), ("combos",), True, None),
-    ("d4v1", [2, 1, 2, 2], 1, [], ("data", "nan"), ("isnull",), "cells", ("mixed", "foreigncombo", "foreigncase"), True, None),
+    ("d4v1", [2, 1, 2, 2], 1, [], ("data", "nan"), ("isnull",), "cells", ("mixed", "foreigncombo", "foreigncase", "keyordercombo"), True, None),
     # 16 locations: checked by TLC only (2^16 patterns x 2 criteria), no replay
     ("d4full", [2, 2, 2, 2], 1, [], ("data", "nan"), ("isnull",), "cells", (), False, None),
 ]
 BUGGY_RULES = {"anyvar": "any() across variables", "anypos": "any() inside a variable",
                "firstvar": "only the first variable inspected", "swap": "isnull/isfinite swapped",
                "keyfalse": "unknown coordinate reported as present",
-               "ignoreforeign": "a requested parameter that is no dimension of the dataset is ignored", "prepend": "reverse order",
+               "ignoreforeign": "a requested parameter that is no dimension of the dataset is ignored",
+               "dedupvalues": "requested locations de-duplicated by their value sequence (key order ignored)", "prepend": "reverse order",
                "twice": "duplicates"}
 
 
@@ -230,12 +231,18 @@ def build_ds(c):
     return ds
 
 
-def setting_dict(c, s):
+def setting_dict(c, s, order=None):
+    """the dict for a setting; `order` (1-based positions) is the order in which the dict lists its keys"""
     dims = dims_of(c)
     nd = len(dims)
-    out = {dims[d]: coord_value(c["variant"], d, s[d], c["sizes"][d]) for d in range(nd) if s[d] != 0}
-    if len(s) > nd and s[nd] != 0:
-        out[FOREIGN] = FOREIGN_VALUES[s[nd] - 1]
+    out = {}
+    for d in ([k - 1 for k in order] if order else range(len(s))):
+        if s[d] == 0:
+            continue
+        if d < nd:
+            out[dims[d]] = coord_value(c["variant"], d, s[d], c["sizes"][d])
+        else:
+            out[FOREIGN] = FOREIGN_VALUES[s[nd] - 1]
     return out
 
 
@@ -440,7 +447,8 @@ def check_one(c):
                 combos[FOREIGN] = [FOREIGN_VALUES[i - 1] for i in cb["vals"]]
             else:
                 combos[dims[d]] = [coord_value(c["variant"], d, i, sizes[d]) for i in cb["vals"]]
-        cases = [setting_dict(c, s) for s in c["cases"]]
+        orders = c.get("orders") or [None] * len(c["cases"])
+        cases = [setting_dict(c, s, o) for s, o in zip(c["cases"], orders)]
         objs = [("Dataset", ds)] + ([("DataArray", ds[VARS[0]])] if c["nv"] == 1 else [])
         for oname, obj in objs:
             kw = {}
@@ -460,6 +468,29 @@ def check_one(c):
                     what = "parse-order"
                 bad.append((what, "parse_into_cases(%s, method=%s, %r) -> %r, expected %r"
                             % (oname, method, kw, new, [setting_dict(c, s) for s in want])))
+            # parse_into_cases -> harvest_cases(what it returned) -> find: no requested location is left without data
+            if got == want and oname == "Dataset" and c["kind"] in ("keyorder", "keyordercombo"):
+                try:
+                    h = make_harvester(xyz, c, ds.copy(deep=True))
+                    if new:
+                        h.harvest_cases(new, overwrite=(True if method == "isfinite" else None), verbosity=0)
+                    full = h.full_ds
+                    fa, again = xyz.find_missing_cases(full, ignore_dims=ig, method=method)
+                except Exception as e:  # noqa
+                    bad.append(("loop-raises", "parse_into_cases -> harvest_cases -> find raised %s: %s" % (type(e).__name__, e)))
+                else:
+                    left = [project_setting(c, dict(zip(fa, case))) for case in again]
+                    wleft = [list(l) + [0] for l in c.get("missing2", [])]
+                    if left != wleft and sorted(map(repr, left)) != sorted(map(repr, wleft)):
+                        bad.append(("loop-left", "after harvest_cases(parse_into_cases(%r)) find_missing_cases still reports %r, expected %r"
+                                    % (kw, [tuple(x) for x in again], [setting_dict(c, l) for l in wleft])))
+                    for d in dims:
+                        before = sorted(np.asarray(ds[d].values).tolist(), key=repr)
+                        after = sorted(np.asarray(full[d].values).tolist(), key=repr) if d in full.coords else None
+                        if before != after:
+                            bad.append(("loop-grew", "after harvest_cases(parse_into_cases(%r)) coordinate %r is %r, it was %r"
+                                        % (kw, d, after, before)))
+                            break
             # is_case_missing at every requested location (the request unrolled by the spec)
             wantset = set(map(tuple, want))
             for st in c.get("list", []):
@@ -556,7 +587,7 @@ def run(rep):
         rep.add_tlc("FindMissing %s" % sh[0], r)
         if r.violated:
             raise tlc.TLCError("FindMissing.tla: invariant %s violated for shape %s with Rule=all" % (r.violated, sh[0]))
-        need = ["Visit1", "HarvestReported", "Visit2"] + (["VisitReq"] if sh[7] else [])
+        need = ["Visit1", "HarvestReported", "Visit2"] + (["VisitReq", "HarvestRequested"] if sh[7] else [])
         for act in need:
             if r.coverage.get(act, (0, 0))[1] == 0:
                 raise tlc.TLCError("vacuous: action %s never taken for shape %s" % (act, sh[0]))
@@ -603,6 +634,11 @@ def run(rep):
     if nforeign < 50:
         raise tlc.TLCError("vacuous case set: only %d requests naming a foreign parameter on a dataset that holds data" % nforeign)
     rep.extra["foreign_parameter_requests"] = nforeign
+    nkey = sum(1 for c in final if c["mode"] == "parse" and c["kind"].startswith("keyorder") and c["variant"] != "mixed"
+               and len(c["expect"]) >= 2)
+    if nkey < 50:
+        raise tlc.TLCError("vacuous case set: only %d requests with dicts in differing key order and coinciding values" % nkey)
+    rep.extra["key_order_requests"] = nkey
     ntyped = sum(1 for c in final if c.get("vdtypes") and any(k != "data" for row in c["cells"] for k in row))
     if ntyped < 50:
         raise tlc.TLCError("vacuous case set: only %d cases with an int/bool/str variable next to a variable with nulls" % ntyped)
